@@ -41,6 +41,12 @@ def run(run):
     for bid, t in inserts:
         ch = ex.operand(t["args"][-1])
         cell_from_blank = mentions(ch, lambda z: z[0] == "call" and z[1].endswith("str::<impl str>::chars") and mentions(z, is_el))
+    if not inserts:
+        from ..common import cell_extend_sites
+        for site in cell_extend_sites(prog, cf):
+            src = site["chars_src"]
+            if mentions(src, lambda z: z[0] == "field" and tuple(z[2])[-1:] == ("1",) and mentions(z, is_el)):
+                cell_from_blank = True
     if len(chars) == 1 and ok and cell_from_blank:
         run.ok("C15.Q1", "cells are built from the blanked row (escape_line(..).1)", where(chars[0][1]))
     else:
